@@ -155,7 +155,7 @@ func drawJobOf(rt *rapid.T, kind int) job {
 }
 
 func TestConcurrentPipelines(t *testing.T) {
-	harness.Check(t, "concurrent-pipelines", 120, 8000, func(rt *rapid.T) {
+	harness.Check(t, "concurrent-pipelines", 120, 2000, func(rt *rapid.T) {
 		n := rapid.IntRange(8, 40).Draw(rt, "jobs")
 		jobs := make([]job, n)
 		twins := rapid.IntRange(0, 3).Draw(rt, "twins") == 0
@@ -209,7 +209,7 @@ func trunc(b []byte, n int) []byte {
 
 // TestParseTwice: parsing the same input twice gives identical trees and errors.
 func TestParseTwice(t *testing.T) {
-	harness.Check(t, "parse-twice", 8000, 300000, func(rt *rapid.T) {
+	harness.Check(t, "parse-twice", 8000, 130000, func(rt *rapid.T) {
 		j := drawJob(rt)
 		a := px.Parse(append([]byte{}, j.src...), j.ver, true)
 		b := px.Parse(append([]byte{}, j.src...), j.ver, true)
@@ -237,7 +237,7 @@ func TestParseTwice(t *testing.T) {
 // gives identical trees and errors"; for the other operations this is the sequential base case of "equals
 // the result obtained alone" — a result that varies from run to run has no "result obtained alone").
 func TestRunRepeatedly(t *testing.T) {
-	harness.Check(t, "run-repeatedly", 3000, 120000, func(rt *rapid.T) {
+	harness.Check(t, "run-repeatedly", 3000, 48000, func(rt *rapid.T) {
 		j := drawJob(rt)
 		if rapid.IntRange(0, 3).Draw(rt, "family") == 0 {
 			j = drawTwinJob(rt)
@@ -263,7 +263,7 @@ func TestRunRepeatedly(t *testing.T) {
 // trees and errors each time it comes round, and a tree kept from an earlier parse must not change
 // while later parses run (objects handed out by a parser's pools stay valid after the parser is gone).
 func TestParseHistory(t *testing.T) {
-	harness.Check(t, "parse-history", 600, 30000, func(rt *rapid.T) {
+	harness.Check(t, "parse-history", 600, 10000, func(rt *rapid.T) {
 		n := rapid.IntRange(2, 5).Draw(rt, "jobs")
 		jobs := make([]job, n)
 		family := rapid.IntRange(0, 5).Draw(rt, "twins")
